@@ -190,3 +190,62 @@ def xmod_fiber_program(rng):
         M.append(r.choice(after) % {"i": i})
     M.append("print([label, count, step]); print(fiblib.state());")
     return "\n".join(M) + "\n", [("fiblib", "\n".join(lib) + "\n")]
+
+
+def pending_return_program(rng):
+    """fibers suspended inside a finally block while their own `return` (or nothing, or an exception) is pending, with
+    other fibers and the main script returning through their own finally blocks in between: each fiber's pending
+    return value and resume point are its own"""
+    r = rng
+    nf = r.range(2, 4)
+    L = ["fn tidy(tag) { try { return \"tidy ${tag}\"; } finally { print(\"tidy finally ${tag}\"); } }",
+         "fn plain(tag) { try { print(\"plain try ${tag}\"); } finally { print(\"plain finally ${tag}\"); } return tag; }",
+         "fn thrower(tag) { try { try { throw \"boom ${tag}\"; } finally { print(\"thrower finally ${tag}\"); } } catch e { return e; } return \"no\"; }"]
+    steps_total = 0
+    for k in range(nf):
+        yields_in_try = r.range(0, 2)
+        yields_in_finally = r.range(1, 3)
+        mode = r.choice(["return", "return", "return", "fall", "throw"])
+        body = ["var acc = [first];", "try {"]
+        for y in range(yields_in_try):
+            body.append("    acc.push(Fiber.yield(\"w%d try %d\"));" % (k, y))
+        if mode == "return":
+            body.append("    return [\"w%d returned\", acc];" % k)
+        elif mode == "throw":
+            body.append("    throw \"w%d threw\";" % k)
+        else:
+            body.append("    acc.push(\"fell\");")
+        body.append("} finally {")
+        for y in range(yields_in_finally):
+            body.append("    acc.push(Fiber.yield(\"w%d finally %d\"));" % (k, y))
+        if r.chance(40):
+            body.append("    print(tidy(\"in w%d\"));" % k) if False else body.append("    print(\"w%d finally done ${acc}\");" % k)
+        else:
+            body.append("    print(\"w%d finally done\");" % k)
+        body.append("}")
+        body.append("print(\"w%d after the try statement\");" % k)
+        body.append("return [\"w%d fell out\", acc];" % k)
+        L.append("fn work%d(first) {" % k)
+        L += ["    " + b for b in body]
+        L.append("}")
+        if r.chance(50):
+            L.append("var f%d = Fiber.new(|x| work%d(x));" % (k, k))
+        else:
+            L.append("var f%d = Fiber.new(|x| { var got = work%d(x); return [\"outer\", got]; });" % (k, k))
+        steps_total += yields_in_try + yields_in_finally + 1
+    # the schedule: random fiber each step, unrelated finally traffic in between
+    for s in range(steps_total + nf + 2):
+        k = r.below(nf)
+        L.append("try { if !f%d.has_finished() { print(f%d.call(%d)); } else { print(\"f%d done\"); } } catch e { print(\"caught from f%d: ${e}\"); }" % (k, k, s, k, k))
+        c = r.below(100)
+        if c < 30:
+            L.append("print(tidy(\"m%d\"));" % s)
+        elif c < 45:
+            L.append("print(plain(\"m%d\"));" % s)
+        elif c < 60:
+            L.append("print(thrower(\"m%d\"));" % s)
+        elif c < 70:
+            L.append("var g%d = Fiber.new(|| tidy(\"g%d\")); print(g%d.call());" % (s, s, s))
+    for k in range(nf):
+        L.append("print(f%d.has_finished());" % k)
+    return "\n".join(L) + "\n"
